@@ -24,9 +24,22 @@ def _install_shim():
 
     from semantiva.execution.transport import in_memory
 
+    class SchedThread:
+        """threading.Thread as the transport uses it for callback subscriptions: the runner becomes one more scheduled thread."""
+
+        def __init__(self, target=None, daemon=None, **kw):
+            self.target = target
+
+        def start(self):
+            s = _CUR[0]
+            if s is None:
+                real.Thread(target=self.target, daemon=True).start()
+                return
+            s.spawn(100 + sum(1 for t in s.state if t >= 100), self.target)
+
     shim = types.SimpleNamespace(
         Lock=lambda: sched.CoopLock(lambda: _CUR[0]),
-        Thread=real.Thread,
+        Thread=SchedThread,
         RLock=real.RLock,
         Event=real.Event,
     )
@@ -76,6 +89,10 @@ HARNESSES: Dict[str, dict] = {
     "H15-used-in-a-forked-child": {
         "pre": [("d.1", 0)], "pubs": [[("c.1", 0), ("c.1", 1)], [("c.2", 0), ("c.1", 0)]], "subs": ["d.*"], "preopen": ["c.*"], "drain": ["*"],
         "pid_changes": True},
+    # a callback subscription (the transport starts a runner thread that feeds every matching message to the callback): a consumer like
+    # any other - what it takes off the queues must reach the callback, the rest stays for later subscriptions
+    "H16-callback-subscription": {
+        "pre": [("c.1", 0), ("c.1", 1)], "pubs": [[("c.1", 0), ("c.2", 0)]], "subs": [], "callbacks": ["c.*"], "drain": ["*"]},
     "H10-preopened-exact-and-concurrent-subscriber": {
         "pre": [], "pubs": [[("c.1", 0)], [("c.1", 0)]], "subs": ["c.?"], "preopen": ["c.1"], "drain": ["*"]},
 }
@@ -147,6 +164,10 @@ def run_harness(name: str, prefix: List[int]) -> sched.Execution:
                     got.append(ident_of(m))
             s.spawn(tid, sub)
             tid += 1
+        for ci, pat in enumerate(h.get("callbacks", [])):
+            got_c: List[Any] = []
+            consumed[f"C{ci}:{pat}"] = got_c
+            t.subscribe(pat, callback=lambda m, got_c=got_c: got_c.append(ident_of(m)))  # spawns the runner as a scheduled thread
         for qi, pat in enumerate(h.get("pollers", [])):
             got_p: List[Any] = []
             consumed[f"Q{qi}:{pat}"] = got_p
@@ -259,13 +280,13 @@ def check(tier: str, seed: int) -> Result:
     if tier == "quick":
         plan = [("H1-two-publishers-new-channel", 2), ("H2-publishers-and-subscriber", 1), ("H3-routing-two-channels", 1),
                 ("H4-existing-channel", 1), ("H6-two-subscribers", 1), ("H7-one-message-each-two-new-channels", 1),
-                ("H8-one-publisher-one-subscriber", 2), ("H9-subscription-opened-before-channels-exist", 1), ("H10-preopened-exact-and-concurrent-subscriber", 1), ("H11-message-shapes", 1), ("H12-connect-and-close-around-traffic", 1), ("H13-publish-before-anyone-connects", 1), ("H14-eighteen-channels-polling-consumer", 0), ("H15-used-in-a-forked-child", 1)]
+                ("H8-one-publisher-one-subscriber", 2), ("H9-subscription-opened-before-channels-exist", 1), ("H10-preopened-exact-and-concurrent-subscriber", 1), ("H11-message-shapes", 1), ("H12-connect-and-close-around-traffic", 1), ("H13-publish-before-anyone-connects", 1), ("H14-eighteen-channels-polling-consumer", 0), ("H15-used-in-a-forked-child", 1), ("H16-callback-subscription", 1)]
         cap = 400000
     else:
         plan = [("H1-two-publishers-new-channel", 3), ("H2-publishers-and-subscriber", 3), ("H3-routing-two-channels", 2),
                 ("H4-existing-channel", 3), ("H5-three-publishers", 2), ("H6-two-subscribers", 2),
                 ("H7-one-message-each-two-new-channels", 3), ("H8-one-publisher-one-subscriber", 3),
-                ("H9-subscription-opened-before-channels-exist", 2), ("H10-preopened-exact-and-concurrent-subscriber", 3), ("H11-message-shapes", 2), ("H12-connect-and-close-around-traffic", 2), ("H13-publish-before-anyone-connects", 2), ("H14-eighteen-channels-polling-consumer", 1), ("H15-used-in-a-forked-child", 2)]
+                ("H9-subscription-opened-before-channels-exist", 2), ("H10-preopened-exact-and-concurrent-subscriber", 3), ("H11-message-shapes", 2), ("H12-connect-and-close-around-traffic", 2), ("H13-publish-before-anyone-connects", 2), ("H14-eighteen-channels-polling-consumer", 1), ("H15-used-in-a-forked-child", 2), ("H16-callback-subscription", 3)]
         cap = 3000000
     jobs = []
     per: Dict[str, dict] = {}
